@@ -303,6 +303,15 @@ pub fn plan(property: &str, tier: Tier) -> Option<Plan>
                 items.push(item(core_cfg(format!("C13/plain3/L12/N{n}"), p3.clone(), &[1, 2], n, 1, false), "core3", &format!("N={n}")));
                 items.push(item(core_cfg(format!("C13/mixed3/L1/N{n}"), vec![Variant::Plain, Variant::Exclusive, Variant::Erring], &[1], n, 1, true), "mixed3", &format!("N={n}")));
             }
+            // frame boundaries between trees (App::update clears the world's change trackers) with exclusive systems,
+            // whose parameter state Bevy would rebuild on re-initialisation
+            let ns: &[u32] = if q { &[4] } else { &[4, 5] };
+            for &n in ns
+            {
+                let mut c = core_cfg(format!("C13/frames/N{n}"), vec![Variant::Exclusive, Variant::Plain, Variant::Exclusive], &[1, 2], n, 3, false);
+                c.update_after_top = true;
+                items.push(item(c, "frames", &format!("N={n}")));
+            }
             reports = vec!["C13"];
             rule = "runner-core programs over three registrations of the same closure type (and exclusive / erring \
                 variants): at every run the Local counter and the captured counter equal the number of earlier runs of \
@@ -374,6 +383,36 @@ pub fn plan(property: &str, tier: Tier) -> Option<Plan>
                 items.push(item(chain_cfg(format!("C11/chain/N{n}"), n, false), "chain", &format!("N={n}")));
                 items.push(item(chain_cfg(format!("C11/chain-watched/N{n}"), n, true), "chain-watched", &format!("N={n}")));
             }
+            // a system whose closure owns the last auto-despawn signal of a watched entity disappears during its own run
+            // (self-despawn, or its last revokable trigger revoked): dropping the callback releases the entity, and
+            // the reactions to that despawn belong to the same tree
+            let ns: &[u32] = if q { &[3] } else { &[3, 4] };
+            for &n in ns
+            {
+                let mut c = Config::base(&format!("C11/owned/N{n}"));
+                c.actors = vec![Variant::Plain, Variant::Plain];
+                c.n_ents = 2;
+                c.children = vec![(1, 0)];
+                c.actor_signals = vec![(0, 0)];
+                c.setup = vec![
+                    Op::Insert(Comp::A, 0, 0), Op::Insert(Comp::A, 1, 0),
+                    Op::Register(0, Bundle::one(Trig::Broadcast(Ev::A)), Mode::Revokable),
+                    Op::Register(1, Bundle::three(Trig::Despawn(0), Trig::Despawn(1), Trig::Removal(Comp::A)), Mode::Persistent),
+                ];
+                let alpha: AlphabetFn = Arc::new(|i: &DynInfo| {
+                    let mut v = vec![Op::Run(0), Op::Run(1), Op::SysEvent(0), Op::Broadcast(Ev::A), Op::DespawnSys(0)];
+                    for k in i.ready_tokens() { v.push(Op::Revoke(k)); }
+                    v
+                });
+                c.top = alpha.clone();
+                c.script = alpha;
+                c.max_top = 2;
+                c.budget = n;
+                c.max_per_run = 2;
+                c.max_runs = 300;
+                c.sym_actors = vec![];
+                items.push(item(c, "owned", &format!("N={n}")));
+            }
             reports = vec!["C11"];
             rule = "every quiescent point of runner-core and kind-rich programs (aborted, postponed, discarded and \
                 self-despawning commands; several trees per world): framework bookkeeping snapshot must be clean".into();
@@ -426,6 +465,39 @@ pub fn plan(property: &str, tier: Tier) -> Option<Plan>
                     c.budget = n;
                     c.max_runs = 600;
                     items.push(item(c, "tops", &format!("N={n}")));
+                }
+            }
+            if is3
+            {
+                // listeners that die while events are in flight: a reaction scheduled for a dead reactor is skipped in
+                // the middle of another event's listeners, which must still read their own event
+                let ns: &[u32] = if q { &[3] } else { &[3, 4] };
+                for &n in ns
+                {
+                    let mut c = Config::base(&format!("C03/faults/N{n}"));
+                    c.actors = vec![Variant::Plain, Variant::Plain, Variant::Plain, Variant::Plain];
+                    c.n_ents = 1;
+                    c.setup = vec![
+                        Op::Register(0, Bundle::two(Trig::Broadcast(Ev::A), Trig::EntityEvent(Ev::B, 0)), Mode::Persistent),
+                        Op::Register(1, Bundle::two(Trig::Broadcast(Ev::A), Trig::EntityEvent(Ev::B, 0)), Mode::Persistent),
+                        Op::Register(2, Bundle::two(Trig::Broadcast(Ev::A), Trig::EntityEvent(Ev::B, 0)), Mode::Persistent),
+                        Op::Register(3, Bundle::two(Trig::EntityEvent(Ev::A, 0), Trig::Broadcast(Ev::B)), Mode::Persistent),
+                    ];
+                    c.fixed_top = vec![];
+                    let alpha: AlphabetFn = Arc::new(|i: &DynInfo| {
+                        let mut v = vec![Op::Broadcast(Ev::A), Op::EntityEvent(Ev::A, 0), Op::Broadcast(Ev::B), Op::EntityEvent(Ev::B, 0)];
+                        for a in i.ready_actors() { v.push(Op::DespawnSys(a)); }
+                        v.push(Op::SysEvent(3));
+                        v
+                    });
+                    c.top = alpha.clone();
+                    c.script = alpha;
+                    c.max_top = 1;
+                    c.budget = n;
+                    c.max_per_run = 2;
+                    c.max_runs = 400;
+                    c.sym_actors = vec![vec![0, 1, 2]];
+                    items.push(item(c, "faults", &format!("N={n}")));
                 }
             }
             if !is3
@@ -507,6 +579,35 @@ pub fn plan(property: &str, tier: Tier) -> Option<Plan>
                 c.max_runs = 400;
                 items.push(item(c, "single", &format!("N={n}")));
             }
+            // reactions of other kinds (insertion / mutation / resource) nested between the readers of one event
+            let ns: &[u32] = if q { &[3] } else { &[3, 4, 5] };
+            for &n in ns
+            {
+                let mut c = Config::base(&format!("C05/mixed/N{n}"));
+                c.actors = vec![Variant::Plain, Variant::Plain, Variant::Plain];
+                c.n_ents = 1;
+                c.setup = vec![
+                    Op::Insert(Comp::A, 0, 0),
+                    Op::Register(0, Bundle::two(Trig::Broadcast(Ev::A), Trig::EntityEvent(Ev::A, 0)), Mode::Persistent),
+                    Op::Register(1, Bundle::two(Trig::Broadcast(Ev::A), Trig::EntityEvent(Ev::A, 0)), Mode::Persistent),
+                    Op::Register(2, Bundle::three(Trig::Mutation(Comp::A), Trig::EntityInsertion(Comp::A, 0), Trig::ResMut), Mode::Persistent),
+                ];
+                let alpha: AlphabetFn = Arc::new(|_i: &DynInfo| {
+                    vec![
+                        Op::Broadcast(Ev::A), Op::EntityEvent(Ev::A, 0), Op::SysEvent(0), Op::SysEvent(2),
+                        Op::Mutate(Comp::A, 0, How::GetMut), Op::Insert(Comp::A, 0, 1), Op::ResMutate(How::GetMut),
+                        Op::RemoveComp(Comp::A, 0),
+                    ]
+                });
+                c.script = alpha.clone();
+                c.top = alpha;
+                c.max_top = 1;
+                c.budget = n;
+                c.max_per_run = 2;
+                c.max_runs = 400;
+                c.sym_actors = vec![vec![0, 1]];
+                items.push(item(c, "mixed", &format!("N={n}")));
+            }
             reports = vec!["C05"];
             rule = "events with 0..3 listeners (entity-scoped + type-wide, taking and non-taking system-event readers) \
                 and fault ops (despawn listener system, despawn target entity) placed by earlier listeners between \
@@ -540,7 +641,13 @@ pub fn plan(property: &str, tier: Tier) -> Option<Plan>
                     let fires2 = fires.clone();
                     let bundles: Vec<Bundle> = if is1
                     {
-                        trigs2.iter().map(|t| Bundle::one(*t)).collect()
+                        let mut b: Vec<Bundle> = trigs2.iter().map(|t| Bundle::one(*t)).collect();
+                        // an entity-scoped trigger on entity 0 ahead of a type-wide one in the same bundle: a token
+                        // is walked in order, and entity 0 may be gone by then
+                        let scoped = trigs2.iter().copied().find(|t| t.entity() == Some(0));
+                        let wide = trigs2.iter().copied().find(|t| t.entity().is_none());
+                        if let (Some(sc), Some(w)) = (scoped, wide) { b.push(Bundle::two(sc, w)); }
+                        b
                     }
                     else
                     {
